@@ -96,6 +96,8 @@ def run_job(job):
             if r.status != 0:
                 if any(m in err for m in ALLOC_ERR):
                     viol("C23", "size-accounting", "str/alloc-error", err[-400:])
+                    viol("C07", "link-failed", "str/link-failed-alloc",
+                         f"status {r.status}: {err[-400:]}")
                 else:
                     viol("C07", "link-failed", "str/link-failed", f"status {r.status}: {err[-400:]}")
                 continue
